@@ -12,7 +12,7 @@ from checks.common import S, Raised, call, coxeter, maxnorm
 from harness.runner import Clause
 from oracle import geom
 
-RULE = ("Enumerated: for each of 13 base shapes (all ten classes; polygons both in the xy-plane and tilted; off-origin, negative "
+RULE = ("Enumerated: for each of 17 base shapes (all ten classes; polygons both in the xy-plane and tilted; off-origin, negative "
         "coordinates, irregular) the query alphabet is obtained by reflection (every public property getter, is_inside, "
         "compute_form_factor_amplitude, distance_to_surface, get_face_area, get_dihedral, repr, str, to_json, to_hoomd, "
         "gsd_shape_spec, save and coxeter.io.to_* in 7 formats) and ordered pairs (q1, q2) are run as q1, q2, q1 on a fresh object. "
@@ -47,6 +47,12 @@ BASES = {
     "ConvexPolygon_xy": lambda: S.ConvexPolygon(_Q2.copy()),
     "ConvexPolygon_tilted": lambda: S.ConvexPolygon(_tilt(_Q2)),
     "ConvexSpheropolygon": lambda: S.ConvexSpheropolygon(_Q2.copy(), 0.3),
+    # the same figures handed over the other way round: explicit -z normal, clockwise vertex lists (default normal -z),
+    # a polyhedron whose faces are not flagged convex (queries go through the ear-clipping triangulation)
+    "ConvexPolygon_xy_minus_z": lambda: S.ConvexPolygon(_Q2.copy(), normal=[0.0, 0.0, -1.0]),
+    "ConvexSpheropolygon_cw": lambda: S.ConvexSpheropolygon(_Q2[::-1].copy(), 0.3),
+    "Polygon_xy_cw": lambda: S.Polygon(_N2[::-1].copy()),
+    "Polyhedron_unflagged": lambda: S.Polyhedron(_B3.copy(), _facets(_B3)),
     "Circle": lambda: S.Circle(1.3, np.array([0.5, -0.2, 0.0])),
     "Ellipse": lambda: S.Ellipse(1.3, 0.6, np.array([0.5, -0.2, 0.0])),
     "Sphere": lambda: S.Sphere(1.3, np.array([0.5, -0.2, 0.8])),
@@ -115,7 +121,8 @@ def arg_queries(base):
     if isinstance(shape, (S.Polygon, S.Polyhedron, S.Sphere)) and not isinstance(shape, S.ConvexSpheropolyhedron):
         out["form_factor(batch)"] = (lambda: (q.copy(),), lambda s, k: call(s.compute_form_factor_amplitude, k))
         out["form_factor(single)"] = (lambda: (q[1:2].copy(),), lambda s, k: call(s.compute_form_factor_amplitude, k))
-    if isinstance(shape, (S.ConvexPolygon, S.ConvexSpheropolygon, S.Circle, S.Ellipse)) and base in ("ConvexPolygon_xy", "ConvexSpheropolygon", "Circle", "Ellipse"):
+    if isinstance(shape, (S.ConvexPolygon, S.ConvexSpheropolygon, S.Circle, S.Ellipse)) and base in ("ConvexPolygon_xy", "ConvexSpheropolygon", "Circle", "Ellipse",
+                                                                                                 "ConvexPolygon_xy_minus_z", "ConvexSpheropolygon_cw"):
         ang = np.array([0.0, 0.4, 1.3, -2.2, 7.3])
         out["distance_to_surface"] = (lambda: (ang.copy(),), lambda s, a: call(s.distance_to_surface, a))
     return out
